@@ -13,95 +13,121 @@ pub enum Verdict {
     TypesOnly,
     NotParsed,
     Unjudged(String),
-    Bad(String),
+    /// (why, attributed known finding)
+    Bad(String, Option<String>),
 }
 
-/// compares input and output: bytes outside luaref type spans must be identical; inside a type span the token
-/// sequences without parentheses and the comment lists must be equal
+struct Item {
+    text: String,
+    start: usize,
+    end: usize,
+    in_type: bool,
+}
+
+fn items(src: &str) -> Result<(Vec<Item>, Vec<(usize, usize)>), String> {
+    let parsed = parser::parse(src.as_bytes(), Mode::Luau).map_err(|e| e.to_string())?;
+    let mut spans = parsed.type_spans.clone();
+    spans.sort();
+    let in_span = |pos: usize| spans.iter().any(|(s, e)| pos >= *s && pos < *e);
+    let mut out = Vec::new();
+    for t in &parsed.tokens {
+        if matches!(t.tok, Tok::Eof) {
+            continue;
+        }
+        let inside = in_span(t.start);
+        // parentheses inside type annotations may differ
+        if inside && matches!(t.tok, Tok::Sym("(") | Tok::Sym(")")) {
+            continue;
+        }
+        out.push(Item {
+            text: src[t.start..t.end].to_owned(),
+            start: t.start,
+            end: t.end,
+            in_type: inside,
+        });
+    }
+    Ok((out, spans))
+}
+
+fn comments_of(gap: &str) -> Vec<String> {
+    match lex(gap.as_bytes(), Mode::Luau) {
+        Ok(l) => l.comments.into_iter().map(|c| c.text).collect(),
+        Err(_) => vec![gap.to_owned()],
+    }
+}
+
+fn strip_type_parens(gap: &str) -> String {
+    gap.chars().filter(|c| *c != '(' && *c != ')').collect()
+}
+
+/// compares input and output of an identity run. Outside type annotations every byte must be the same; in gaps
+/// adjacent to a type-annotation token only spacing and parentheses may differ (comments must be kept).
 pub fn compare(input: &str, output: &str) -> Verdict {
     if input == output {
         return Verdict::Identical;
     }
-    let parsed = match parser::parse(input.as_bytes(), Mode::Luau) {
-        Ok(p) => p,
+    let (a, _) = match items(input) {
+        Ok(x) => x,
         Err(e) => return Verdict::Unjudged(format!("reference parser rejects the input: {}", e)),
     };
-    if parsed.type_spans.is_empty() {
-        return Verdict::Bad("output differs from input (no type syntax involved)".to_owned());
+    let (b, _) = match items(output) {
+        Ok(x) => x,
+        Err(e) => return Verdict::Bad(format!("output does not parse: {}", e), None),
+    };
+    if a.len() != b.len() || a.iter().zip(b.iter()).any(|(x, y)| x.text != y.text) {
+        return Verdict::Bad("code tokens differ (a literal spelling, separator or token was changed)".to_owned(), None);
     }
-    // merge spans
-    let mut spans = parsed.type_spans.clone();
-    spans.sort();
-    let mut merged: Vec<(usize, usize)> = Vec::new();
-    for (s, e) in spans {
-        match merged.last_mut() {
-            Some(last) if s <= last.1 => last.1 = last.1.max(e),
-            _ => merged.push((s, e)),
+    let mut findings: Vec<&str> = Vec::new();
+    let mut type_diff = false;
+    let n = a.len();
+    for i in 0..=n {
+        let (ga_s, ga_e) = (if i == 0 { 0 } else { a[i - 1].end }, if i == n { input.len() } else { a[i].start });
+        let (gb_s, gb_e) = (if i == 0 { 0 } else { b[i - 1].end }, if i == n { output.len() } else { b[i].start });
+        let ga = &input[ga_s..ga_e];
+        let gb = &output[gb_s..gb_e];
+        if ga == gb {
+            continue;
         }
-    }
-    // token-level comparison: tokens outside spans must be byte-identical with identical gaps; inside spans ignore parens/space
-    let tin = match lex(input.as_bytes(), Mode::Luau) {
-        Ok(t) => t,
-        Err(e) => return Verdict::Unjudged(e.to_string()),
-    };
-    let tout = match lex(output.as_bytes(), Mode::Luau) {
-        Ok(t) => t,
-        Err(e) => return Verdict::Bad(format!("output does not lex: {}", e)),
-    };
-    let in_span = |pos: usize| merged.iter().any(|(s, e)| pos >= *s && pos < *e);
-    let strip = |toks: &Vec<crate::luaref::lexer::Token>, src: &str, only_in: Option<bool>| -> Vec<String> {
-        toks.iter()
-            .filter(|t| !matches!(t.tok, Tok::Eof))
-            .filter(|t| !matches!(t.tok, Tok::Sym("(") | Tok::Sym(")")))
-            .filter(|t| only_in.map(|b| in_span(t.start) == b).unwrap_or(true))
-            .map(|t| src[t.start..t.end].to_owned())
-            .collect()
-    };
-    // all tokens minus parentheses must be the same raw texts in the same order
-    let a = strip(&tin.tokens, input, None);
-    let b = strip(&tout.tokens, output, None);
-    if a != b {
-        // parentheses outside type spans must not change either: compare full token lists outside spans
-        return Verdict::Bad("token sequence (ignoring parentheses) differs".to_owned());
-    }
-    let full_in: Vec<String> = tin.tokens.iter().filter(|t| !in_span(t.start)).map(|t| input[t.start..t.end].to_owned()).collect();
-    // output spans are unknown; compare counts of parentheses outside type spans through total counts
-    let paren_in_outside = full_in.iter().filter(|s| *s == "(" || *s == ")").count();
-    let paren_in_inside = tin.tokens.iter().filter(|t| in_span(t.start) && matches!(t.tok, Tok::Sym("(") | Tok::Sym(")"))).count();
-    let paren_out_total = tout.tokens.iter().filter(|t| matches!(t.tok, Tok::Sym("(") | Tok::Sym(")"))).count();
-    let _ = (paren_in_outside, paren_in_inside, paren_out_total);
-    let ca: Vec<&String> = tin.comments.iter().map(|c| &c.text).collect();
-    let cb: Vec<&String> = tout.comments.iter().map(|c| &c.text).collect();
-    if ca != cb {
-        return Verdict::Bad("comments differ".to_owned());
-    }
-    // text outside type spans: remove spans from the input and check that the remaining pieces appear in order in the output
-    let mut cursor = 0usize;
-    let mut last = 0usize;
-    let mut pieces: Vec<&str> = Vec::new();
-    for (s, e) in &merged {
-        pieces.push(&input[last..*s]);
-        last = *e;
-    }
-    pieces.push(&input[last..]);
-    for (i, p) in pieces.iter().enumerate() {
-        if i == 0 {
-            if !output.starts_with(p) {
-                return Verdict::Bad("text before the first type annotation differs".to_owned());
+        let type_adjacent = (i > 0 && a[i - 1].in_type) || (i < n && a[i].in_type);
+        let prev_is_ellipsis = i > 0 && a[i - 1].text == "...";
+        if type_adjacent {
+            let (ca, cb) = (comments_of(&strip_type_parens(ga)), comments_of(&strip_type_parens(gb)));
+            if ca == cb {
+                type_diff = true;
+                continue;
             }
-            cursor = p.len();
-        } else if i + 1 == pieces.len() {
-            if !output[cursor..].ends_with(p) {
-                return Verdict::Bad("text after the last type annotation differs".to_owned());
+            let next_is_ellipsis = i < n && a[i].text == "...";
+            if prev_is_ellipsis || next_is_ellipsis {
+                findings.push("type-pack-ellipsis-trivia-dropped");
+                continue;
             }
-        } else {
-            match output[cursor..].find(p) {
-                Some(off) => cursor += off + p.len(),
-                None => return Verdict::Bad("text between type annotations differs".to_owned()),
-            }
+            return Verdict::Bad(format!("a comment inside a type annotation changed: {:?} -> {:?}", ga, gb), None);
         }
+        // `...` of a variadic parameter type (`...: T`) is not inside the span but is written the same way
+        if prev_is_ellipsis && i < n && a[i].text == ")" && i >= 2 && a[i - 2].in_type {
+            findings.push("type-pack-ellipsis-trivia-dropped");
+            continue;
+        }
+        let prev_char = if ga.is_empty() { a.get(i.wrapping_sub(1)).and_then(|t| t.text.chars().last()) } else { ga.chars().last() };
+        if i < n && a[i].text.starts_with(']') && prev_char == Some(']') && gb == format!("{} ", ga) {
+            findings.push("space-inserted-between-closing-brackets");
+            continue;
+        }
+        return Verdict::Bad(format!("text between tokens changed: {:?} -> {:?}", ga, gb), None);
     }
-    Verdict::TypesOnly
+    if let Some(f) = findings.first() {
+        let mut all = findings.clone();
+        all.sort();
+        all.dedup();
+        let _ = f;
+        // every difference is explained by a known defect; attributed to the first one (all are listed)
+        return Verdict::Bad(format!("known defect(s): {:?}", all), Some(all[0].to_string()));
+    }
+    if type_diff {
+        Verdict::TypesOnly
+    } else {
+        Verdict::Bad("output differs from input".to_owned(), None)
+    }
 }
 
 pub fn identity_output(src: &str) -> Result<Option<String>, String> {
@@ -119,16 +145,28 @@ pub fn inputs(tier: Tier) -> Vec<String> {
         // a second statement after the template exercises trailing trivia followed by code
         out.push(format!("{}\nreturn 1", t.trim_end_matches(|c| c == ' ')));
     }
+    for t in l::TEMPLATES {
+        out.extend(l::despaced(t));
+    }
     out.extend(l::spelling_programs());
     for s in l::spelling_programs() {
         if s.len() < 60 {
             out.extend(l::deviations1(&s).into_iter().skip(1).step_by(3));
         }
     }
-    if tier == Tier::Thorough {
-        let small = [" ", "\n", "--c\n", "--[[c]]", "\r\n"];
-        for t in l::TEMPLATES {
-            out.extend(l::deviations2(t, &small));
+    // pairs of deviations (both tiers: the whole space takes about a second)
+    let small = [" ", "\n", "--c\n", "--[[c]]", "\r\n"];
+    for t in l::TEMPLATES {
+        out.extend(l::deviations2(t, &small));
+    }
+    // the repository's own Lua files as additional templates
+    for path in ["tests/test_cases/spaces_and_comments.lua", "tests/fuzzed_test_cases/a.lua", "tests/fuzzed_test_cases/b.lua", "tests/fuzzed_test_cases/c.lua", "tests/test_cases/small_bundle/main.lua", "tests/test_cases/small_bundle/format.lua"] {
+        if let Ok(text) = std::fs::read_to_string(std::path::Path::new("/repo").join(path)) {
+            if text.len() < 40_000 {
+                let step = tier.pick(5, 1);
+                out.push(text.clone());
+                out.extend(l::deviations1(&text).into_iter().skip(1).step_by(step));
+            }
         }
     }
     out
@@ -156,10 +194,10 @@ pub fn run(tier: Tier) -> Report {
                 Verdict::TypesOnly => (1, None),
                 Verdict::NotParsed => (2, None),
                 Verdict::Unjudged(_) => (4, None),
-                Verdict::Bad(why) => (
+                Verdict::Bad(why, finding) => (
                     3,
                     Some(Violation {
-                        finding: classify(src, &out),
+                        finding,
                         summary: format!("{}\n--- input  {:?}\n--- output {:?}", why, src, out),
                         replay: json!({"kind": "identity", "input": src, "output": out, "why": why}),
                     }),
@@ -189,8 +227,4 @@ pub fn run(tier: Tier) -> Report {
         report.sample(json!(ins[i]));
     }
     report
-}
-
-fn classify(_input: &str, _output: &str) -> Option<String> {
-    None
 }
